@@ -115,11 +115,17 @@ class IVFCLevel4Reader(RawIOBase):
 
             for block in range(starting_block, ending_block + 1):
                 data, valid = self._tree.get_block(4, block, verify=self._verify, deep_verify=self._deep_verify)
+                if not data:
+                    # the size field claims more than the file holds: nothing is stored from this block on
+                    break
                 if self._verify and not valid:
                     # data isn't always block-aligned
                     blocks.append(b'\xDD' * len(data))
                 else:
                     blocks.append(data)
+
+            if not blocks:
+                return b''
 
             first_block_offset = self._seek % self._lv4.block_size
             if starting_block == ending_block:
@@ -131,7 +137,8 @@ class IVFCLevel4Reader(RawIOBase):
                 last_block_size = self._lv4.block_size
 
             blocks[0] = blocks[0][first_block_offset:]
-            blocks[-1] = blocks[-1][:last_block_size]
+            if len(blocks) == ending_block - starting_block + 1:
+                blocks[-1] = blocks[-1][:last_block_size]
 
             final_data = b''.join(blocks)
             self._seek += len(final_data)
